@@ -99,23 +99,52 @@ Theorem C12_coeff_zero_iff_independent : forall p x,
 Proof. exact coeff_zero_iff_independent. Qed.
 Print Assumptions C12_coeff_zero_iff_independent.
 
-(* LinearPolynomial._substitute_known_variables (the code since 0fa6448; Model/Poly.substitute, tied to
-   the code by the operation-sequence correspondence): it never changes the value ... *)
+(* ---- LinearPolynomial._substitute_known_variables (the code since 0fa6448): Model/Poly.substitute.
+   HOW THIS RELATES TO THE THEOREMS ABOVE: Model/LinkBase.run / leval do NOT call Poly.substitute; there,
+   intermediate symbols are inlined by the harness and cancellation is the normalisation of add/sub.
+   That symbols really are transparent in the code -- for every placement and definition order -- is
+   established by CORRESPONDENCE only: the symbol stream of tools/props/c12.py (every solvable
+   symbol-spelled link expression must be accepted with the value of the inlined expression) and the
+   driven operation sequences of tools/polycorr.py, which tie Poly.substitute to the real _wait.
+   The theorems below are about that mechanism in isolation: they explain why the stream holds, they
+   are not used in the proof of C12_base_solved. ---- *)
+
+(* substitution never changes the value, under any assignment consistent with the settled variables *)
 Theorem C12_substitute_sound : forall w rho p, wagrees w rho -> eval (fst (substitute w p)) rho = eval p rho.
 Proof. exact substitute_sound. Qed.
 Print Assumptions C12_substitute_sound.
 
-(* ... and it is complete: when nothing is being computed and "is defined through" is well founded
-   (rank rk), no variable of the result is settled -- what is known, or denoted by another variable,
-   never survives, so the same quantity is never denoted by two variables and cancels *)
+(* completeness, also while variables are being computed (the link base is solved exactly while the
+   base Deferred is awaited): with well-founded definitions (rank rk), every variable left in the result
+   is unsettled, or is being computed, or is the one-step value of a variable that is being computed *)
 Theorem C12_substitute_complete : forall w (rk : var -> nat),
-  awaiting w = [] ->
   (forall x y, lookupv (settled w) x = Some (VVar y) -> (rk y < rk x)%nat) ->
   (forall x p y, lookupv (settled w) x = Some (VPoly p) -> In y (vars p) -> (rk y < rk x)%nat) ->
-  forall p, (forall y, In y (vars p) -> (rk y < sub_fuel)%nat) ->
-  forall z, In z (vars (fst (substitute w p))) -> lookupv (settled w) z = None.
+  forall p, (forall y, In y (vars p) -> (rk y < sub_fuel w)%nat) ->
+  forall z, In z (vars (fst (substitute w p))) ->
+    lookupv (settled w) z = None \/ memv z (awaiting w) = true \/
+    exists y, memv y (awaiting w) = true /\ lookupv (settled w) y = Some (VVar z).
 Proof. exact substitute_complete. Qed.
 Print Assumptions C12_substitute_complete.
+
+(* the third case cannot be dropped: y being computed and settled to z, z settled to 5: the code's
+   one-step estimate leaves z in the result although z is known *)
+Example C12_ex_residual_third_case :
+  substitute (World [(1, VVar 2); (2, VPoly (pconst 5))] [1] []) (pvar 1) = (Poly [(2, 1)] 0, [1]).
+Proof. vm_compute. reflexivity. Qed.
+
+(* semantic completeness -- the statement Props/C12_findings.v refutes for the old one-level substitution
+   holds for the new one (nothing being computed, well-founded definitions): a polynomial that has the
+   same value under EVERY consistent assignment is substituted to a constant *)
+Theorem C12_substitute_semantically_complete : forall w (rk : var -> nat),
+  (forall x y, lookupv (settled w) x = Some (VVar y) -> (rk y < rk x)%nat) ->
+  (forall x p y, lookupv (settled w) x = Some (VPoly p) -> In y (vars p) -> (rk y < rk x)%nat) ->
+  forall p c, awaiting w = [] ->
+  (forall y, In y (vars p) -> (rk y < sub_fuel w)%nat) ->
+  (forall rho, wagrees w rho -> eval p rho = c) ->
+  is_const (fst (substitute w p)) = true.
+Proof. exact substitute_semantically_complete. Qed.
+Print Assumptions C12_substitute_semantically_complete.
 
 (* a `.link` after the base has been set by `.link` or by a leading `. =`: address-conflict,
    whatever surrounds it *)
@@ -167,9 +196,10 @@ Print Assumptions C12_dot_backward_program.
    the link expression is -LA + x with LA (0) settled to the Deferred d (1), which is being computed,
    and the symbol x (2) settled to LA + 4: the substitution now yields the constant 4 *)
 Example C12_ex_substitute :
-  substitute (World [(0, VVar 1); (2, VPoly (addc (pvar 0) 4))] [1] []) (add (neg (pvar 0)) (pvar 2))
-  = (Poly [] 4, []).
-Proof. vm_compute. reflexivity. Qed.
+  let w := World [(0, VVar 1); (2, VPoly (addc (pvar 0) 4))] [1] [] in
+  substitute w (add (neg (pvar 0)) (pvar 2)) = (Poly [] 4, []) /\
+  substitute_oof w (add (neg (pvar 0)) (pvar 2)) = false.
+Proof. vm_compute. split; reflexivity. Qed.
 (* .link 1000 + e - s / s: .word 1,2 / e:      base 0o1004 *)
 Example C12_ex_solved :
   run [SLink (LAdd (LConst 512) (LSub (LLabel 1) (LLabel 0))); SLabel; SBytes [1;0;2;0]; SLabel]
